@@ -5,6 +5,7 @@ package sim
 // generator, model, process isolation and minimisation. See DESIGN 7.C04.
 
 import (
+	"io"
 	"bytes"
 	"encoding/json"
 	"fmt"
@@ -447,6 +448,71 @@ func execC04(t *testing.T, raw json.RawMessage, res *Result) {
 				res.Violate("offset-wrong", "BlockBuffer.GetRow(1,%d,%d) = %v err=%v", blk, off, clip(r), err)
 				return
 			}
+		}
+	}
+	// the modified rows read back through diff.RowChangeReader (what `wrgl diff` pages through): per
+	// column one value when both sides agree, [new, old] when they differ
+	{
+		cd := diff.CompareColumns([2][]string{tblB.Columns, tblB.PrimaryKey()}, [2][]string{tblA.Columns, tblA.PrimaryKey()})
+		rc, err := diff.NewRowChangeReader(stA, stB, tblA, tblB, cd)
+		if err != nil {
+			res.Violate("change-reader-error", "NewRowChangeReader: %v", err)
+			return
+		}
+		var mods []diffEvent
+		for _, e := range evs {
+			if e.Kind == "modified" {
+				mods = append(mods, e)
+				rc.AddRowDiff(&objects.Diff{PK: []byte(e.PK), Sum: []byte(e.Sum), OldSum: []byte(e.Old), Offset: e.Offset, OldOffset: e.OldOff})
+			}
+		}
+		colA, colB := map[string]int{}, map[string]int{}
+		for i, c := range tblA.Columns {
+			colA[c] = i
+		}
+		for i, c := range tblB.Columns {
+			colB[c] = i
+		}
+		if rc.Len() != len(mods) {
+			res.Violate("change-reader-wrong", "RowChangeReader.Len() = %d after %d AddRowDiff", rc.Len(), len(mods))
+			return
+		}
+		for i, e := range mods {
+			var got [][]string
+			if i%2 == 0 {
+				got, err = rc.Read()
+			} else {
+				got, err = rc.ReadAt(i)
+				rc.Seek(i+1, io.SeekStart)
+			}
+			if err != nil || len(got) != len(rc.ColDiff.Names) {
+				res.Violate("change-reader-wrong", "RowChangeReader row %d of %d: %d columns, err %v (want %d columns)", i, len(mods), len(got), err, len(rc.ColDiff.Names))
+				return
+			}
+			ra, rb := rawA[e.Offset], rawB[e.OldOff]
+			for j, name := range rc.ColDiff.Names {
+				ia, okA := colA[name]
+				ib, okB := colB[name]
+				if !okA || !okB {
+					res.Invalid("C04 tables have the same columns")
+					return
+				}
+				wantCell := []string{ra[ia]}
+				if ra[ia] != rb[ib] {
+					wantCell = []string{ra[ia], rb[ib]}
+				}
+				if !rowsEqual(got[j], wantCell) {
+					res.Violate("change-reader-wrong", "RowChangeReader row %d column %q = %s, the two rows hold %s (new row %s, old row %s)", i, name, clip(got[j]), clip(wantCell), clip(ra), clip(rb))
+					return
+				}
+			}
+		}
+		if got, err := rc.Read(); err != io.EOF {
+			res.Violate("change-reader-wrong", "RowChangeReader.Read past the last of %d changes: %v, err %v (want io.EOF)", len(mods), got, err)
+			return
+		}
+		if len(mods) > 0 {
+			res.probe("row_change_reader", 1)
 		}
 	}
 	for k, wk := range want {
